@@ -225,7 +225,8 @@ def check_python(report):
     r4.check(ok, p, qp.node.lineno, "Method.query_params", "query parameters are all input fields minus path variables minus the body field; none when body is `*`")
     for qual in ("gapic.schema.wrappers.Method.path_params",):      # field_headers' pattern is C06's (C06.4)
         f = m.func(qual)
-        pats = [c.value for n in ast.walk(f.node) for c in ast.walk(n) if isinstance(c, ast.Constant) and isinstance(c.value, str) and "{" in c.value and "\\" in c.value + "\\" and ("(" in c.value)]
+        from ..pymodel import nfunc
+        pats = [c.value for c in ast.walk(nfunc(m, f)) if isinstance(c, ast.Constant) and isinstance(c.value, str) and "{" in c.value and ("(" in c.value)]
         for pt in set(pats):
             try:
                 tree = sre_parser.parse(pt)
